@@ -182,7 +182,7 @@ pub fn check_batch(cx: &mut Cx, piece: Piece, from: usize, to: u64, class: &'sta
 
 pub fn run(cfg: &Cfg) -> Result<Outcome, String> {
     let stats = run_sharded(cfg, |cx| {
-        let n_random = if cx.is_thorough() { 60 } else { 6 };
+        let n_random = if cx.is_thorough() { 6000 } else { 600 };
         for from in cx.mine(64) {
             for piece in Piece::ALL {
                 for (to, class) in dest_sets(cx, n_random) {
